@@ -351,6 +351,35 @@ WRITES = ["set_value", "add_item", "add_packet", "itr_update"]
 READS = ["get_value", "iterate", "walk"]
 
 
+SIMPLE = re.compile(r"^[A-Za-z][A-Za-z0-9]*$")
+
+
+def simple_text(v):
+    """CIF 2.0 text of a value whose strings need no thought about delimiters (None otherwise)"""
+    k = v.get("k")
+    if k == "na": return "."
+    if k == "unk": return "?"
+    if k == "numb":
+        return v["t"] if not v.get("q") and NUMRE.match(v["t"]) and re.search(r"\d", v["t"]) else None
+    if k == "char":
+        t = v.get("t", "")
+        if not SIMPLE.match(t) or t.lower().startswith(("data", "save", "loop", "stop", "global")):
+            return None
+        return "'%s'" % t if v.get("q") else t
+    if k == "list":
+        parts = [simple_text(x) for x in v.get("e", [])]
+        return None if any(p is None for p in parts) else "[" + " ".join(parts) + "]"
+    if k == "table":
+        parts = []
+        for key, x in v.get("e", []):
+            tx = simple_text(x)
+            if tx is None or not key or any(c in key for c in "'\"\n\r") :
+                return None
+            parts.append("'%s':%s" % (key, tx))
+        return "{" + " ".join(parts) + "}"
+    return None
+
+
 def route_cmds(val, w, r):
     cs = [{"op": "cif_create", "cif": "c"}, {"op": "create_block", "cif": "c", "code": "b", "h": "h"}, {"op": "value_build", "v": "v0", "val": val},
           {"op": "value_dump", "v": "v0"}]
@@ -368,10 +397,17 @@ def route_cmds(val, w, r):
                {"op": "get_packets", "loop": "l", "itr": "i"}, {"op": "itr_next", "itr": "i", "want": 0}, {"op": "packet_create", "p": "p", "names": []},
                {"op": "packet_op", "p": "p", "f": "set", "name": "_v", "arg": "v0"}, {"op": "itr_update", "itr": "i", "ph": "p"}, {"op": "itr_close", "itr": "i"},
                {"op": "packet_op", "p": "p", "f": "free"}]
+    elif w == "parse":
+        # the parser as the storing route: the value is the SECOND packet of a one-column loop whose first packet is another
+        # list (the parser re-uses one value object per column)
+        cs.append({"op": "parse", "cif": "c", "errors": "accept", "text": "#\\#CIF_2.0\ndata_p\nloop_\n_V\n[zz 'q' [1]]\n%s\n" % simple_text(val)})
+        cs.append({"op": "get_block", "cif": "c", "code": "p", "h": "h"})
     nwrite = len(cs)
     # the caller's object is changed and released: the stored copy must not notice
     cs += [{"op": "value_op", "v": "v0", "f": "copy_char", "text": "MUTATED"}, {"op": "value_free", "v": "v0"}]
-    if r == "get_value":
+    if w == "parse":
+        cs += [{"op": "get_item_loop", "cont": "h", "name": "_v", "h": "l2"}, {"op": "get_packets", "loop": "l2", "itr": "j"}, {"op": "itr_next", "itr": "j"}, {"op": "itr_next", "itr": "j"}, {"op": "itr_abort", "itr": "j"}]
+    elif r == "get_value":
         cs.append({"op": "get_value", "cont": "h", "name": "_v"})
     elif r == "iterate":
         cs += [{"op": "get_item_loop", "cont": "h", "name": "_v", "h": "l2"}, {"op": "get_packets", "loop": "l2", "itr": "j"}, {"op": "itr_next", "itr": "j"}, {"op": "itr_abort", "itr": "j"}]
@@ -419,11 +455,16 @@ def c07(tier, replay=None):
     extra.append(deep)
     vals += extra
     cases = [(vi, w, r) for vi in range(len(vals)) for w in WRITES for r in READS]
+    # the parser as a storing route, for the values that are easily written down
+    pcases = [(vi, "parse", "iterate") for vi in range(len(vals)) if vals[vi].get("k") in ("list", "table") and simple_text(vals[vi]) is not None]
+    if tier == "quick":
+        rnd.shuffle(pcases); pcases = pcases[:600]
     if tier == "quick" and len(cases) > 9000:
         keep = [c for c in cases if c[0] >= nmodel]
         rest = [c for c in cases if c[0] < nmodel]
         rnd.shuffle(rest)
         cases = keep + rest[:9000 - len(keep)]
+    cases += pcases
 
     def run_chunk(ch):
         cmds, spans = [], []
@@ -451,9 +492,21 @@ def c07(tier, replay=None):
                 if g.get("rc") != 0: problems.append("get_value rc %s" % g.get("rc"))
                 got = full(g.get("v"))
             elif r == "iterate":
-                g = o[nw + 4]
+                g = o[nw + 5] if w == "parse" else o[nw + 4]
                 if g.get("rc") != 0: problems.append("itr_next rc %s" % g.get("rc"))
                 got = next((full(v) for n, v in g.get("pkt", []) if n == "_v"), None)
+                if w == "parse":
+                    # what the parser reads whitespace-delimited is a number only on demand: a number and an unquoted
+                    # string with the same text are the same value (C01)
+                    def same(v):
+                        if isinstance(v, dict):
+                            if v.get("k") == "numb" and not v.get("q"):
+                                return {"k": "char", "t": v.get("t"), "q": 0}
+                            return {k2: same(x) for k2, x in v.items()}
+                        if isinstance(v, list):
+                            return [same(x) for x in v]
+                        return v
+                    orig, got = same(orig), same(got)
             else:
                 g = o[nw + 2]
                 it = [e for e in g.get("log", []) if e.get("cb") == "item" and e.get("name") == "_v"]
